@@ -66,6 +66,20 @@ def programs(tier):
                 ("n in l", lambda s: s.n.inside(s.l), lambda v: v["n"] in v["l"]),
                 ("n notin l", lambda s: s.n.not_inside(s.l), lambda v: v["n"] not in v["l"]),
             ]
+            import operator as OP
+            rels = [(">=", OP.ge), (">", OP.gt), ("<=", OP.le), ("<", OP.lt), ("==", OP.eq), ("!=", OP.ne)]
+            if not signed:
+                # if/else inside foreach whose condition is known at expansion time (index / non-random field m == 2):
+                # every relational operator, with the boundary on, below and above the compared value
+                for rn, rf in rels:
+                    for k in (0, 1, 2):
+                        bodies.append(("if(i%s%d)" % (rn, k),
+                                       lambda s, rf=rf, k=k: _fe_ifelse(s, lambda s2, i: rf(i, k)),
+                                       lambda v, rf=rf, k=k: all(x == (1 if rf(i, k) else 2) for i, x in enumerate(v["l"]))))
+                    for k in (1, 2, 3):
+                        bodies.append(("if(m%s%d)" % (rn, k),
+                                       lambda s, rf=rf, k=k: _fe_ifelse(s, lambda s2, i: rf(s2.m, k)),
+                                       lambda v, rf=rf, k=k: all(x == (1 if rf(2, k) else 2) for x in v["l"])))
             if signed:
                 bodies += [("it<0", lambda s: _fe_it(s, lambda it: it < 0), lambda v: all(x < 0 for x in v["l"])),
                            ("sum==-3", lambda s: s.l.sum == -3, lambda v: sum(v["l"]) == -3)]
@@ -79,6 +93,8 @@ def programs(tier):
                 add("fixed%d/%s/%s" % (sz, kind, bname), _mk_fixed(T, sz, bld), pred, fixed=sz, kind=kind)
             if tier != "quick" or sz == 2:
                 for (n1, b1, p1), (n2, b2, p2) in itertools.combinations(bodies[:9], 2):
+                    if n1.startswith("if(") or n2.startswith("if("):
+                        continue
                     add("fixed%d/%s/%s+%s" % (sz, kind, n1, n2), _mk_fixed(T, sz, lambda s, b1=b1, b2=b2: (b1(s), b2(s))),
                         lambda v, p1=p1, p2=p2: p1(v) and p2(v), fixed=sz, kind=kind)
     # ---- unique_vec over two fixed lists -----------------------------------------
@@ -134,6 +150,14 @@ def _fe_both(s, f):
         f(i, it)
 
 
+def _fe_ifelse(s, cond):
+    with vsc.foreach(s.l, idx=True) as i:
+        with vsc.if_then(cond(s, i)):
+            s.l[i] == 1
+        with vsc.else_then:
+            s.l[i] == 2
+
+
 def _fe_sorted(s):
     with vsc.foreach(s.l, idx=True) as i:
         with vsc.if_then(i < s.l.size - 1):
@@ -147,6 +171,7 @@ def _mk_fixed(T, sz, bld):
             def __init__(self):
                 self.l = vsc.rand_list_t(T(), sz)
                 self.n = vsc.rand_bit_t(3)
+                self.m = vsc.bit_t(3, i=2)
 
             @vsc.constraint
             def cl(self):
